@@ -203,6 +203,12 @@ func (e *Enc) mapKey(k Value) (Term, bool) {
 	if len(k.L) == 1 && k.L[0].Sort == SInt && k.Place == nil {
 		return k.L[0], true
 	}
+	if _, isIface := k.Typ.Underlying().(*types.Interface); isIface && len(k.L) == 2 && k.Place == nil {
+		// interface-typed key: equal keys have equal dynamic type and value (the converse is not
+		// claimed: ikey is uninterpreted, so "another key" is only concluded from different ikeys)
+		e.declareFun("ikey", []string{"Int", "Int"}, "Int")
+		return app(SInt, "ikey", k.L[0], k.L[1]), true
+	}
 	return Term{}, false
 }
 
